@@ -1,6 +1,6 @@
 (* C01 — Disclosed attribute values are authentic (what acceptance implies). *)
 From Coq Require Import ZArith List.
-From Gabi Require Import ModArith GoSem ParamsDef ZkProof Keys HashTool RangeProof NonRev Core CoreTotal CoreSound.
+From Gabi Require Import ModArith GoSem ParamsDef ZkProof Keys HashTool RangeProof NonRev Core CoreTotal CoreSound SignedPow DiscloseComplete DiscloseExtract.
 From GabiGen Require Import Consts.
 Import ListNotations.
 Open Scope Z_scope.
@@ -39,3 +39,19 @@ Theorem reconstruct_z_shift :
   0 <= r -> 0 <= k -> 0 <= ord ->
   reconstruct_z pk (with_response p i (r + ord * k)) = reconstruct_z pk (with_response p i r).
 Proof. exact reconstruct_z_shift_lem. Qed.
+
+(* The algebraic half of the two-transcript extractor (what "whatever a prover does" reduces to): two accepted
+   transcripts of one disclosure - same A, same disclosed values, same hidden indices, same reconstructed
+   commitment - with challenges c >= c' yield exponents de = e - e', dv = v - v', da_i = a_i - a_i' with
+     A^de * S^dv * prod_{hidden i} R_i^(da_i) = ( Z / (A^(2^(le-1)) * prod_{disclosed j} R_j^(a_j)) )^(c - c')  mod N
+   ([extracted], with [known_of] the quotient on the right as the verifier computes it from the disclosed values;
+   [aligned] ties the terms position by position to the responses of the two transcripts). The step from here to
+   "a CL signature on the disclosed values exists" divides by c - c' and is the strong-RSA argument of CL03. *)
+Theorem two_transcripts_give_signature_relation :
+  forall pk, wf_pk pk -> forall p p' c c' z,
+  0 < Le (pk_params pk) ->
+  pd_A p = pd_A p' -> pd_ADisc p = pd_ADisc p' -> map fst (pd_AResp p) = map fst (pd_AResp p') ->
+  pd_C p = Some c -> pd_C p' = Some c' -> 0 <= c' <= c ->
+  reconstruct_z pk p = Ok z -> reconstruct_z pk p' = Ok z ->
+  exists ts, aligned pk p p' ts /\ extracted pk p p' c c' ts.
+Proof. exact disclosure_two_transcripts_lem. Qed.
